@@ -485,3 +485,77 @@ func c04Prepared(db *TermDB, te *TermEntry) (*State, PtrV) {
 	}{fs, tp}
 	return fs, tp
 }
+
+// ---- C09 (part): the width function of the dependency, evaluated from its source ----
+
+// c09RuneWidth evaluates the REAL (*runewidth.Condition).RuneWidth (go-runewidth, from its source in the module
+// cache) on every C0 control, DEL, every C1 control, the zero-width / line- and paragraph-separator / bidi-embedding
+// characters U+200B-200F, U+2028-202E, U+FEFF, the surrogates' boundaries and invalid code points, with the
+// condition's flags symbolic and no lookup table: the width is 0 on every path, so by the C08 contracts
+// (SetContent stores width = RuneWidth(main), GetContent returns a blank for width 0 or a rune < ' ') such a
+// primary rune never leaves the cell buffer.
+func c09RuneWidth(run *PropRun) {
+	e := run.Eng
+	const rwPath = "github.com/mattn/go-runewidth"
+	fn := e.FindFunc(rwPath + ".(*Condition).RuneWidth")
+	if fn == nil {
+		panic(VerErr{"UNDECIDED: go-runewidth (*Condition).RuneWidth not found among the loaded packages"})
+	}
+	ev := e.NewEvaluator(true, "C09.runewidth")
+	c := ev.C
+	c.Spec.Opts["inline-external"] = "go-runewidth" // the dependency's own source is what gets executed
+	condT := fn.Params[0].Type().(*types.Pointer).Elem()
+	var runes []int64
+	for r := int64(0); r < 0x20; r++ {
+		runes = append(runes, r)
+	}
+	for r := int64(0x7f); r <= 0x9f; r++ {
+		runes = append(runes, r)
+	}
+	for _, rg := range [][2]int64{{0x200B, 0x200F}, {0x2028, 0x202E}, {0xFEFF, 0xFEFF}, {0xD800, 0xD800}, {0xDFFF, 0xDFFF}, {0x110000, 0x110000}, {-1, -1}, {0x7fffffff, 0x7fffffff}, {-0x80000000, -0x80000000}} {
+		for r := rg[0]; r <= rg[1]; r++ {
+			runes = append(runes, r)
+		}
+	}
+	n := 0
+	for _, r := range runes {
+		st := ev.NewState()
+		co := c.newObject("cond", condT)
+		cv := c.zeroValue(st, condT).(*StructV)
+		nf := &StructV{Typ: cv.Typ, F: append([]Value(nil), cv.F...)}
+		stt := under(condT).(*types.Struct)
+		for i := 0; i < stt.NumFields(); i++ {
+			if isBool(stt.Field(i).Type()) {
+				nf.F[i] = Fresh("cond."+stt.Field(i).Name(), BoolSort)
+			}
+		}
+		st.Mem[co] = nf
+		paths, err := ev.Call(st, fn, []Value{PtrV{Obj: co}, NumC(big.NewInt(r), BVSort(32))})
+		ok := err == nil && len(paths) > 0
+		why := ""
+		if err != nil {
+			why = err.Error()
+		}
+		for _, p := range paths {
+			t, isT := p.Ret.(*Term)
+			if !isT || !isNum(t) || t.Val.Sign() != 0 {
+				ok = false
+				why = fmt.Sprintf("a path returns %s", showValue(p.Ret))
+			}
+		}
+		g := run.AddObligation(fmt.Sprintf("runewidth[%#x]/zero", r), "table", BoolT(ok), fmt.Sprintf("go-runewidth RuneWidth(%#x) == 0 for both settings of EastAsianWidth / StrictEmojiNeutral %s", r, why))
+		g.ReplayGo = replayTest("tcell", []string{"github.com/mattn/go-runewidth"}, fmt.Sprintf(`
+	for _, ea := range []bool{false, true} {
+		cnd := &runewidth.Condition{EastAsianWidth: ea}
+		if w := cnd.RuneWidth(rune(%d)); w != 0 {
+			fail("RuneWidth(%%#x) = %%d with EastAsianWidth=%%v", %d, w, ea)
+			return
+		}
+	}`, r, r))
+		n++
+	}
+	run.Extra["runewidth_points_evaluated_on_the_dependency_source"] = n
+	for k := range c.Assumed {
+		run.Assumed[k] = true
+	}
+}
